@@ -118,6 +118,8 @@ pub struct Monitor {
     pending_cyc: Vec<(K, bool)>,
     rev: u64,
     last_rev_dbg: String,
+    /// the capacity of the creator function was changed: creators may re-execute after eviction
+    mk_lru_used: bool,
     pub sub: crate::mon2::Sub,
 }
 
@@ -151,6 +153,7 @@ impl Monitor {
             pending_cyc: Vec::new(),
             rev: 0,
             last_rev_dbg: String::new(),
+            mk_lru_used: false,
         }
     }
 
@@ -171,6 +174,10 @@ impl Monitor {
         }
         if k.0 == F::Lru && !(self.flags.lru && self.sub.lru.believed_cached(k.1) == Some(true)) {
             // the value may have been evicted
+            return Ok(());
+        }
+        if k.0 == F::Mk && self.mk_lru_used {
+            // the creator's capacity was lowered: its value may have been evicted
             return Ok(());
         }
         let since = r.last_valid_op;
@@ -194,6 +201,9 @@ impl Monitor {
                     if k2.0 == F::Lru && !(self.flags.lru && self.sub.lru.believed_cached(k2.1) == Some(true)) {
                         // the callee's value may have been evicted: salsa has nothing to compare
                         // a recomputed value with, so the caller is re-executed first
+                        return Ok(());
+                    }
+                    if k2.0 == F::Mk && self.mk_lru_used {
                         return Ok(());
                     }
                     let loose = matches!(k2.0, F::NoEq | F::Lru) || k2.0.has_cycle_handling();
@@ -540,6 +550,9 @@ impl Monitor {
         if matches!(op, Op::RoundTrip) {
             self.had_round_trip = true;
         }
+        if matches!(op, Op::MkLruCap(_)) {
+            self.mk_lru_used = true;
+        }
         let rd = format!("{:?}", salsa::plumbing::current_revision(&sess.db));
         if rd != self.last_rev_dbg {
             self.rev += 1;
@@ -556,8 +569,17 @@ impl Monitor {
                 Rec::Enter { f, key, .. } => {
                     if *f == F::Sp && self.flags.specify && self.sub.sp_spec_state.get(key) == Some(&true) {
                         self.sub.taint_spec_switch = true;
+                        self.sub.taint_comp_to_spec = false;
                     }
                     stack.push(((*f, *key), false))
+                }
+                Rec::Specified { id, .. } => {
+                    // a key whose value was computed by the body earlier (in another execution
+                    // of the creator) now gets a specified value: the latest switch decides the class
+                    if self.flags.specify && self.sub.sp_computed.contains(id) && self.sub.sp_spec_state.get(id) != Some(&true) {
+                        self.sub.taint_comp_to_spec = true;
+                        self.sub.taint_spec_switch = false;
+                    }
                 }
                 Rec::CallBegin { f, key, .. } => {
                     let k = (*f, *key);
@@ -659,6 +681,9 @@ impl Monitor {
         }
         if self.sub.taint_spec_switch {
             return Some("specified-to-computed-switch-not-propagated");
+        }
+        if self.sub.taint_comp_to_spec {
+            return Some("computed-to-specified-switch-not-propagated");
         }
         if self.taint_fbp {
             return Some("fallback-participant-reexecuted-outside-its-cycle");
